@@ -91,7 +91,33 @@ Proof.
       * destruct (IH _ _ _ _ (top_hidden_env _ _ (eq_sym V1) Hh) He) as [R2 V2]. split; [exact R2|congruence].
       * inversion He; subst. auto.
 Qed.
+Lemma map_eval_kw_relab kw : Forall (fun p => P (snd p)) kw -> forall s kvs s', top_hidden s ->
+  map_eval_kw ev s kw = Ok (kvs, s') -> map_eval_kw ev (relab L s) kw = Ok (kvs, relab L s') /\ s_env s' = s_env s.
+Proof.
+  induction 1 as [|[k x] r Hx Hr IH]; intros s vs s' Hh He; cbn [map_eval_kw] in *.
+  - inversion He; auto.
+  - fold (map_eval_kw ev) in *. cbn [snd] in Hx. bstep He p1 E1. destruct p1 as [v s1]. bstep He p2 E2. destruct p2 as [vr s2]. inversion He; subst.
+    destruct (Hev x Hx _ _ _ Hh E1) as [R1 V1]. rewrite R1. cbn [bind].
+    destruct (IH _ _ _ (top_hidden_env _ _ (eq_sym V1) Hh) E2) as [R2 V2]. rewrite R2. cbn [bind].
+    split; [reflexivity|congruence].
+Qed.
 End Comb.
+
+Lemma relab_mk s a b d : relab L (mkSt (s_env s) a b d) = mkSt (s_env (relab L s)) a b d.
+Proof. unfold relab. cbn [s_env]. destruct (s_env s) eqn:E; cbn [with_env s_env]; rewrite ?E; reflexivity. Qed.
+
+Lemma call_macro_relab fuel esc s mc cl vs kvs v s' :
+  call_macro c fuel esc s mc cl vs kvs = Ok (v, s') ->
+  call_macro c fuel esc (relab L s) mc cl vs kvs = Ok (v, relab L s').
+Proof.
+  destruct fuel as [|fuel]; [discriminate|]. cbn [call_macro].
+  destruct (relab_fields L s) as (R1 & R2 & R3). rewrite R1, R2, R3.
+  destruct (Nat.ltb (length (m_params mc)) (length vs)); [discriminate|].
+  intros H. bstep H bound Eb. rewrite Eb. cbn [bind].
+  match type of H with (if ?b then _ else _) = _ => destruct b; [discriminate|] end.
+  bstep H s1 E1. rewrite E1. cbn [bind]. bstep H p2 E2. destruct p2 as [sg s2]. rewrite E2. cbn [bind].
+  inversion H; subst. f_equal. f_equal. symmetry. apply relab_mk.
+Qed.
 
 Lemma forallb_Forall {X} (p : X -> bool) l : forallb p l = true -> Forall (fun x => p x = true) l.
 Proof. induction l; cbn; intros H; constructor; apply andb_prop in H as [? ?]; auto. Qed.
@@ -161,7 +187,21 @@ Proof.
     destruct (IH' _ H1 _ _ _ Hh E1) as [R1 _]. rewrite R1. cbn [bind].
     destruct (map_eval_relab (eval c fuel esc) (fun e => l2_expr e = true) IH' args (forallb_Forall _ _ H2) _ _ _ (TH _ _ _ _ Hh E1) E2) as [R2 _].
     rewrite R2. cbn [bind]. bstep He r Er. rewrite Er. cbn [bind]. inversion He; reflexivity.
-  - discriminate.
+  - (* ECall *)
+    apply andb_prop in Hw as [Hw _]. apply andb_prop in Hw as [H1 H2].
+    bstep He p1 E1. destruct p1 as [vs s1]. bstep He p2 E2. destruct p2 as [kvs s2].
+    destruct (map_eval_relab (eval c fuel esc) (fun e => l2_expr e = true) IH' args (forallb_Forall _ _ H1) _ _ _ Hh E1) as [R1 V1].
+    rewrite R1. cbn [bind].
+    assert (Hh1 : top_hidden s1) by (eapply top_hidden_env; [symmetry; exact V1|exact Hh]).
+    destruct (map_eval_kw_relab (eval c fuel esc) (fun e => l2_expr e = true) IH' kwargs (forallb_Forall _ _ H2) _ _ _ Hh1 E2) as [R2 V2].
+    rewrite R2. cbn [bind].
+    assert (Hh2 : top_hidden s2) by (eapply top_hidden_env; [symmetry; exact V2|exact Hh1]).
+    destruct (lookup c s2 f) as [fv s3] eqn:El. rewrite (lookup_relab _ _ _ _ Hh2 El).
+    destruct fv as [[| | | | | | |mc cl| |g]|]; try discriminate.
+    + apply call_macro_relab. exact He.
+    + destruct (g =? N_range)%Z; [|discriminate].
+      destruct vs as [|[| | | |k| | | | |] [|? ?]]; try discriminate. destruct kvs; [|discriminate].
+      inversion He; reflexivity.
 Qed.
 
 End Relab.
